@@ -33,7 +33,8 @@ def delta_for_block(uid: int, kwspec: dict) -> dict:
             # 'S': the run-wide shared dict (tag P0), else a fresh dict tagged with the block's uid
             delta['options'] = 'P0' if val == 'S' else f'{val}{uid}'
         elif name == 'callback':
-            delta['callback'] = {'u': f'c{uid}', 'D': 'default', 'R': f'r{uid}'}[val]
+            # 'k0'/'k1': two callback objects shared by all blocks of the run that use them
+            delta['callback'] = {'u': f'c{uid}', 'D': 'default', 'R': f'r{uid}', 'k0': 'k0', 'k1': 'k1'}[val]
         else:
             raise ValueError(name)
     return delta
@@ -200,7 +201,7 @@ class RefConfig:
     def enter(self, ctx: str, uid: int, kwspec: dict, entry: dict | None = None) -> dict:
         delta = delta_for_block(uid, kwspec)
         for f, tag in delta.items():
-            if isinstance(tag, str) and tag not in ('default', 'P0') and tag[-1].isdigit() and not tag.startswith('cg'):
+            if isinstance(tag, str) and tag not in ('default', 'P0', 'k0', 'k1') and tag[-1].isdigit() and not tag.startswith('cg'):
                 self.owner[tag] = ctx
         new = merge(self.top(ctx), delta) if entry is None else dict(entry)
         self.stacks[ctx].append(new)
